@@ -21,6 +21,9 @@ enum Fam {
     BoundaryInts,
     Floats,
     MixedNumbers,
+    /// integers (also near the 64-bit limits), halves and NaN: min/max must follow the ordering in
+    /// which NaN comes after every number, whatever the order of the rows
+    NumbersWithNan,
     Strings,
     Anything,
 }
@@ -41,6 +44,12 @@ fn gen_value(rng: &mut Rng, fam: Fam, null_pm: u32) -> Value {
                 Value::Float(rng.range(-40, 40) as f64 + 0.5)
             }
         }
+        Fam::NumbersWithNan => match rng.below(5) {
+            0 => Value::Float(f64::NAN),
+            1 => Value::Float(rng.range(-40, 40) as f64 + 0.5),
+            2 => Value::Int(*rng.pick(&[i64::MAX, i64::MIN, 9007199254740993, -9007199254740993])),
+            _ => Value::Int(rng.range(-20, 20)),
+        },
         Fam::Strings => Value::String(rng.pick(&["", "a", "b", "ab", "A", "é", "zz"]).to_string()),
         Fam::Anything => match rng.below(6) {
             0 => Value::Bool(rng.chance(1, 2)),
@@ -84,7 +93,7 @@ struct Expect {
 }
 
 fn one_case(s: &Scratch, prep: &mut Prep, rng: &mut Rng, k: usize, out: &mut CaseOut) {
-    let fam = [Fam::SmallInts, Fam::BoundaryInts, Fam::Floats, Fam::MixedNumbers, Fam::Strings, Fam::Anything][k % 6];
+    let fam = [Fam::SmallInts, Fam::BoundaryInts, Fam::Floats, Fam::MixedNumbers, Fam::Strings, Fam::Anything, Fam::NumbersWithNan][k % 7];
     let nkeys = [0usize, 1, 1, 2, 3][rng.below(5)];
     let nrows = rng.below(14);
     let null_pm = [0, 150, 400][rng.below(3)];
@@ -105,7 +114,7 @@ fn one_case(s: &Scratch, prep: &mut Prep, rng: &mut Rng, k: usize, out: &mut Cas
     if nkeys == 0 && rows.is_empty() {
         groups.insert(String::new(), Expect { n: 0, nonnull: vec![] }); // global aggregation over nothing: one row
     }
-    let numeric = matches!(fam, Fam::SmallInts | Fam::BoundaryInts | Fam::Floats | Fam::MixedNumbers);
+    let numeric = matches!(fam, Fam::SmallInts | Fam::BoundaryInts | Fam::Floats | Fam::MixedNumbers | Fam::NumbersWithNan);
     let ordered = !matches!(fam, Fam::Anything);
     let mut aggs: Vec<(&str, String)> = vec![("count(*)", "count(*)".into()), ("count", "count(r[1])".into()), ("collect", "collect(r[1])".into()), ("count-distinct", "count(DISTINCT r[1])".into()), ("collect-distinct", "collect(DISTINCT r[1])".into())];
     if numeric {
